@@ -140,20 +140,28 @@ type c05CS struct {
 
 var _ handshake.CryptoSetup = &c05CS{}
 
-func (c *c05CS) StartHandshake(context.Context) error                     { return nil }
-func (c *c05CS) Close() error                                             { return nil }
-func (c *c05CS) ChangeConnectionID(protocol.ConnectionID)                 {}
-func (c *c05CS) GetSessionTicket() ([]byte, error)                        { return nil, nil }
-func (c *c05CS) HandleMessage([]byte, protocol.EncryptionLevel) error     { return nil }
-func (c *c05CS) NextEvent() handshake.Event                               { return handshake.Event{Kind: handshake.EventNoEvent} }
-func (c *c05CS) SetLargest1RTTAcked(protocol.PacketNumber) error          { return nil }
-func (c *c05CS) DiscardInitialKeys()                                      {}
-func (c *c05CS) SetHandshakeConfirmed()                                   {}
-func (c *c05CS) ConnectionState() handshake.ConnectionState               { return handshake.ConnectionState{} }
-func (c *c05CS) GetInitialSealer() (handshake.LongHeaderSealer, error)    { return nil, handshake.ErrKeysDropped }
-func (c *c05CS) GetHandshakeSealer() (handshake.LongHeaderSealer, error)  { return nil, handshake.ErrKeysDropped }
-func (c *c05CS) Get0RTTSealer() (handshake.LongHeaderSealer, error)       { return nil, handshake.ErrKeysDropped }
-func (c *c05CS) Get1RTTSealer() (handshake.ShortHeaderSealer, error)      { return nil, handshake.ErrKeysDropped }
+func (c *c05CS) StartHandshake(context.Context) error                 { return nil }
+func (c *c05CS) Close() error                                         { return nil }
+func (c *c05CS) ChangeConnectionID(protocol.ConnectionID)             {}
+func (c *c05CS) GetSessionTicket() ([]byte, error)                    { return nil, nil }
+func (c *c05CS) HandleMessage([]byte, protocol.EncryptionLevel) error { return nil }
+func (c *c05CS) NextEvent() handshake.Event                           { return handshake.Event{Kind: handshake.EventNoEvent} }
+func (c *c05CS) SetLargest1RTTAcked(protocol.PacketNumber) error      { return nil }
+func (c *c05CS) DiscardInitialKeys()                                  {}
+func (c *c05CS) SetHandshakeConfirmed()                               {}
+func (c *c05CS) ConnectionState() handshake.ConnectionState           { return handshake.ConnectionState{} }
+func (c *c05CS) GetInitialSealer() (handshake.LongHeaderSealer, error) {
+	return nil, handshake.ErrKeysDropped
+}
+func (c *c05CS) GetHandshakeSealer() (handshake.LongHeaderSealer, error) {
+	return nil, handshake.ErrKeysDropped
+}
+func (c *c05CS) Get0RTTSealer() (handshake.LongHeaderSealer, error) {
+	return nil, handshake.ErrKeysDropped
+}
+func (c *c05CS) Get1RTTSealer() (handshake.ShortHeaderSealer, error) {
+	return nil, handshake.ErrKeysDropped
+}
 func (c *c05CS) GetInitialOpener() (handshake.LongHeaderOpener, error) {
 	if c.initial == nil {
 		return nil, handshake.ErrKeysDropped
